@@ -51,7 +51,7 @@ func escText(s string, variant int) string {
 }
 
 func escAttr(s string, q string) string {
-	r := strings.NewReplacer("&", "&amp;", "<", "&lt;", q, map[string]string{`"`: "&quot;", `'`: "&apos;"}[q], "\n", "&#xA;", "\t", "&#x9;")
+	r := strings.NewReplacer("&", "&amp;", "<", "&lt;", ">", "&gt;", q, map[string]string{`"`: "&quot;", `'`: "&apos;"}[q], "\n", "&#xA;", "\t", "&#x9;")
 	return r.Replace(s)
 }
 
@@ -591,6 +591,7 @@ func replaySeq(line []byte, a *Acc) {
 		mxj.CoerceKeysToSnakeCase(false)
 		mxj.SetGlobalKeyMapPrefix("#")
 		mxj.XMLEscapeChars(false)
+		mxj.XmlDefaultEmptyElemSyntax()
 	}()
 	mxj.XMLEscapeChars(true)
 	variant := 0
@@ -609,9 +610,14 @@ func replaySeq(line []byte, a *Acc) {
 	}
 	cases := 0
 	for _, g := range l.G {
-		parts := strings.SplitN(g.Code, "|", 2)
+		parts := strings.SplitN(g.Code, "|", 3)
 		mxj.CoerceKeysToSnakeCase(parts[0] == "1")
 		mxj.SetGlobalKeyMapPrefix(parts[1])
+		if parts[2] == "1" {
+			mxj.XmlGoEmptyElemSyntax()
+		} else {
+			mxj.XmlDefaultEmptyElemSyntax()
+		}
 		cases++
 		one := func(sig, detail string) {
 			a.Mis(sig, fmt.Sprintf("options %s, document %s: %s", g.Code, plain, detail), seqLine{F: "seq", D: l.D, G: []seqGroup{g}})
@@ -686,4 +692,245 @@ func replaySeq(line []byte, a *Acc) {
 func init() {
 	register("seq", &family{replay: replaySeq, serial: true,
 		rule: "one case = (document, snake-case / key-prefix setting): NewMapXmlSeq[Reader] compared with DecodeSeq, MapSeq.Xml byte for byte with EncodeSeq, XmlIndent / BeautifyXml / NewMapFormattedXmlSeq token-equivalent, real round trip; non-trivial = the root has several children or attributes"})
+}
+
+// ---------------------------------------------------------------------------
+// family "esc" (C05): one string in element, attribute and mixed position through the four XML
+// encoders and the three escaping modes, validity check on/off.
+// ---------------------------------------------------------------------------
+type escLine struct {
+	F     string `json:"f"`
+	S     string `json:"s"`
+	E     string `json:"e"`
+	Xe    string `json:"xe"`
+	Xa    string `json:"xa"`
+	Xm    string `json:"xm"`
+	RawOK bool   `json:"rawok"`
+}
+
+func wellFormed(b []byte) error {
+	d := xml.NewDecoder(bytes.NewReader(b))
+	depth, roots := 0, 0
+	for {
+		t, err := d.Token()
+		if err == io.EOF {
+			if depth != 0 {
+				return fmt.Errorf("unbalanced")
+			}
+			return nil
+		}
+		if err != nil {
+			return err
+		}
+		switch t.(type) {
+		case xml.StartElement:
+			if depth == 0 {
+				roots++
+			}
+			depth++
+		case xml.EndElement:
+			depth--
+		}
+	}
+}
+
+func trimDoc(s string) string { return strings.Trim(s, "\t\r\b\n ") }
+
+func replayEsc(line []byte, a *Acc) {
+	var l escLine
+	if err := json.Unmarshal(line, &l); err != nil {
+		panic(err)
+	}
+	defer func() {
+		mxj.XMLEscapeChars(false)
+		mxj.XMLEscapeCharsDecoder(false)
+		mxj.XmlCheckIsValid(false)
+	}()
+	one := func(sig, detail string) { a.Mis(sig, fmt.Sprintf("string %q: %s", l.S, detail), l) }
+	cases := 0
+	// the internal function itself
+	if got := mxj.VerifEscapeChars(l.S); got != l.E {
+		one("esc:escapeChars", fmt.Sprintf("escapeChars = %q, specification %q", got, l.E))
+	}
+	maps := map[string]mxj.Map{
+		"elem":  {"a": l.S},
+		"attr":  {"a": map[string]interface{}{"-x": l.S}},
+		"mixed": {"a": map[string]interface{}{"#text": l.S, "b": ""}},
+	}
+	seqs := map[string]mxj.MapSeq{
+		"elem":  {"a": map[string]interface{}{"#text": l.S, "#seq": 0}},
+		"attr":  {"a": map[string]interface{}{"#attr": map[string]interface{}{"x": map[string]interface{}{"#text": l.S, "#seq": 0}}}},
+		"mixed": {"a": map[string]interface{}{"#text": l.S, "#seq": 0, "b": map[string]interface{}{"#text": "", "#seq": 1}}},
+	}
+	expX := map[string]string{"elem": l.Xe, "attr": l.Xa, "mixed": l.Xm}
+	// ---- mode 1: encoder-side escaping
+	mxj.XMLEscapeChars(true)
+	for pos, m := range maps {
+		cases++
+		b, err := m.Xml()
+		if err != nil || string(b) != expX[pos] {
+			one("esc:enc:bytes:"+pos, fmt.Sprintf("Map.Xml = %q (%v), specification %q", b, err, expX[pos]))
+			continue
+		}
+		bi, erri := m.XmlIndent("", " ")
+		for i, out := range [][]byte{b, bi} {
+			name := []string{"Xml", "XmlIndent"}[i]
+			if i == 1 && erri != nil {
+				one("esc:enc:indent-error", erri.Error())
+				continue
+			}
+			if werr := wellFormed(out); werr != nil {
+				one("esc:enc:ill-formed:"+pos, fmt.Sprintf("Map.%s = %q: %v", name, out, werr))
+				continue
+			}
+			back, derr := mxj.NewMapXml(out)
+			want := l.S
+			var got interface{}
+			switch pos {
+			case "elem":
+				got, _ = back.ValueForPath("a")
+				want = trimDoc(l.S)
+			case "attr":
+				got, _ = back.ValueForPath("a.-x")
+			case "mixed":
+				got, _ = back.ValueForPath("a.#text")
+				want = trimDoc(l.S)
+				if want == "" {
+					got = ""
+				}
+			}
+			if derr != nil || got != want {
+				one("esc:enc:decode-back:"+pos+":"+name, fmt.Sprintf("Map.%s = %q decodes to %q (err %v), want %q", name, out, got, derr, want))
+			}
+		}
+	}
+	for pos, ms := range seqs {
+		cases++
+		var b, bi []byte
+		var err, erri error
+		if p := guard(func() { b, err = ms.Xml(); bi, erri = ms.XmlIndent("", " ") }); p != "" {
+			one("esc:seq:panic:"+pos, p)
+			continue
+		}
+		for i, out := range [][]byte{b, bi} {
+			name := []string{"MapSeq.Xml", "MapSeq.XmlIndent"}[i]
+			if e := []error{err, erri}[i]; e != nil {
+				one("esc:seq:error:"+pos, name+": "+e.Error())
+				continue
+			}
+			if werr := wellFormed(out); werr != nil {
+				one("esc:seq:ill-formed:"+pos, fmt.Sprintf("%s = %q: %v", name, out, werr))
+				continue
+			}
+			back, derr := mxj.NewMapXmlSeq(out)
+			var got interface{}
+			want := l.S
+			switch pos {
+			case "elem", "mixed":
+				got, _ = mxj.Map(back).ValueForPath("a.#text")
+				want = trimDoc(l.S)
+				if want == "" {
+					got = ""
+				}
+			case "attr":
+				got, _ = mxj.Map(back).ValueForPath("a.#attr.x.#text")
+			}
+			if derr != nil || got != want {
+				one("esc:seq:decode-back:"+pos, fmt.Sprintf("%s = %q decodes to %q (err %v), want %q", name, out, got, derr, want))
+			}
+		}
+	}
+	// ---- mode 2: escaping off, validity check on: well-formed output or an error, never silent
+	mxj.XMLEscapeChars(false)
+	mxj.XmlCheckIsValid(true)
+	for pos, m := range maps {
+		cases++
+		b, err := m.Xml()
+		bi, erri := m.XmlIndent("", " ")
+		if err == nil && wellFormed(b) != nil {
+			one("esc:check:silent:Map.Xml:"+pos, fmt.Sprintf("returned ill-formed %q without error", b))
+		}
+		if erri == nil && wellFormed(bi) != nil {
+			one("esc:check:silent:Map.XmlIndent:"+pos, fmt.Sprintf("returned ill-formed %q without error", bi))
+		}
+	}
+	for pos, ms := range seqs {
+		cases++
+		var b, bi []byte
+		var err, erri error
+		if p := guard(func() { b, err = ms.Xml(); bi, erri = ms.XmlIndent("", " ") }); p != "" {
+			one("esc:check:seq-panic:"+pos, p)
+			continue
+		}
+		if err == nil && wellFormed(b) != nil {
+			one("esc:check:silent:MapSeq.Xml:"+pos, fmt.Sprintf("returned ill-formed %q without error", b))
+		}
+		if erri == nil && wellFormed(bi) != nil {
+			one("esc:check:silent:MapSeq.XmlIndent:"+pos, fmt.Sprintf("returned ill-formed %q without error", bi))
+		}
+	}
+	mxj.XmlCheckIsValid(false)
+	// ---- mode 3: decoder-side escaping: decode, encode (raw), decode again reproduces the stored values
+	mxj.XMLEscapeCharsDecoder(true)
+	docs := map[string]*xNode{
+		"elem":  {K: "e", Nm: xName{L: []string{"a"}}, Ch: []*xNode{{K: "t", Tx: []string{l.S}}}},
+		"attr":  {K: "e", Nm: xName{L: []string{"a"}}, At: []xAttr{{Nm: xName{L: []string{"x"}}, V: []string{l.S}}}},
+		"mixed": {K: "e", Nm: xName{L: []string{"a"}}, Ch: []*xNode{{K: "t", Tx: []string{l.S}}, {K: "e", Nm: xName{L: []string{"b"}}}}},
+	}
+	for pos, dn := range docs {
+		cases++
+		doc := renderDocRaw(dn, 0)
+		m, err := mxj.NewMapXml(doc)
+		if err != nil {
+			one("esc:dec:decode-error:"+pos, fmt.Sprintf("NewMapXml(%q): %v", doc, err))
+			continue
+		}
+		// stored value = escaped (trimmed) original
+		var got interface{}
+		want := l.E
+		switch pos {
+		case "elem":
+			got, _ = m.ValueForPath("a")
+			want = mxj.VerifEscapeChars(trimDoc(l.S))
+		case "attr":
+			got, _ = m.ValueForPath("a.-x")
+		case "mixed":
+			got, _ = m.ValueForPath("a.#text")
+			want = mxj.VerifEscapeChars(trimDoc(l.S))
+			if want == "" {
+				got = ""
+			}
+		}
+		if got != want {
+			one("esc:dec:stored:"+pos, fmt.Sprintf("NewMapXml(%q) stored %q, want the escaped value %q", doc, got, want))
+			continue
+		}
+		before := tagged.CanonGo(m)
+		for _, indent := range []bool{false, true} {
+			var b []byte
+			var e error
+			if indent {
+				b, e = m.XmlIndent("", " ")
+			} else {
+				b, e = m.Xml()
+			}
+			m2, e2 := mxj.NewMapXml(b)
+			if e != nil || e2 != nil || tagged.CanonGo(m2) != before {
+				one("esc:dec:not-reproduced:"+pos, fmt.Sprintf("encode (indent=%v) gave %q (%v); decoding it gives %s (%v), first decode %s", indent, b, e, tagged.CanonGo(m2), e2, before))
+			}
+		}
+	}
+	nt := 0
+	if l.E != l.S {
+		nt = cases
+	}
+	a.Count(cases, nt)
+	if len(l.S) > 6 && l.E != l.S {
+		a.Sample(map[string]interface{}{"string": l.S, "escaped": l.E, "element": l.Xe, "attribute": l.Xa, "mixed": l.Xm})
+	}
+}
+
+func init() {
+	register("esc", &family{replay: replayEsc, serial: true,
+		rule: "one case = (string, position element/attribute/mixed, escaping mode, encoder); non-trivial = the string contains a character that must be escaped"})
 }
